@@ -308,12 +308,32 @@ def run(tier, only=None):
                     tb = [bytes(t['bytes']) for t in tests_by_subject.get(s['name'], [])]
                     compressed = corpus.tag(s, 'compressed') == 'true' or any(('compressed', 'true') in [tuple(t) for t in m_['tags']] for m_ in decls)
                     for i, (_, blk) in enumerate(exs):
-                        if compressed:
-                            stats['examples_compressed_skipped'] = stats.get('examples_compressed_skipped', 0) + 1
-                            continue      # the page shows the decompressed payload by design
-                        stats['examples'] += 1
                         groups = example_groups(blk)
                         got = bytes(b & 0xFF for g, _ in groups for b in g)
+                        if compressed:
+                            # by design the page shows the decompressed payload: the annotated bytes must be a prefix of a
+                            # test vector followed by the zlib-decompressed rest of that vector
+                            import zlib
+                            stats['examples_compressed'] = stats.get('examples_compressed', 0) + 1
+                            ok = False
+                            for t in tb:
+                                k = len(os.path.commonprefix([t, got]))
+                                for cut in range(k, max(k - 8, -1), -1):
+                                    rest = t[cut:]
+                                    try:
+                                        dec = zlib.decompress(rest) if rest else b''
+                                    except zlib.error:
+                                        continue
+                                    if got[cut:] == dec:
+                                        ok = True
+                                        break
+                                if ok:
+                                    break
+                            if not ok:
+                                ck.violation(key + '/example%d/bytes' % (i + 1), '%s example %d (compressed): the annotated byte groups (%d bytes) are not "wire prefix + decompressed rest" of any test vector of %s' % (pname, i + 1, len(got), s['name']),
+                                             {'annotated': list(got[:200])})
+                            continue
+                        stats['examples'] += 1
                         if got not in tb:
                             near = max(tb, key=lambda t: len(os.path.commonprefix([t, got]))) if tb else b''
                             k = len(os.path.commonprefix([near, got]))
@@ -379,7 +399,7 @@ def run(tier, only=None):
         ndoc = len(stats.pop('documented_objects'))
         ck.sample(dict(stats, documented_objects=ndoc))
         ck.assume('(a) syntax-tree equality and the table/example comparisons are deterministic data comparisons; the solver claim is (b): per container of a supported view and covered shape, bytes and validity predicate of the documented text == those of the source (z3), shapes capped at %d' % bounds.max_shapes)
-        ck.assume('pages not linked from SUMMARY.md (left-overs of earlier generator versions) are ignored; containers with nested if statements have no body table by design (doc_printer) and examples of compressed messages show the decompressed payload: both are counted, not compared; comments, descriptions, links and the header tables of the pages are outside the comparison; table sizes are compared for members whose wire size does not depend on values')
+        ck.assume('pages not linked from SUMMARY.md (left-overs of earlier generator versions) are ignored; containers with nested if statements have no body table by design (doc_printer) and examples of compressed messages show the decompressed payload and are compared as wire prefix + zlib-decompressed rest; comments, descriptions, links and the header tables of the pages are outside the comparison; table sizes are compared for members whose wire size does not depend on values')
         ck.assume('in the quick tier the z3 layout comparison runs on the documentation pages only (the Rust doc comments embed the same printer output and are compared as syntax trees); thorough runs it on both')
         return ck.finish(dict(stats, programs=max(ndoc, 1), disagreements_checked=stats['page_sections'] + stats['rust_comments'], documented_objects=ndoc,
                               rule='embedded wowm text == source object at the cited file:line (tree equality + z3 layout equivalence); body table rows == members; example byte groups == a test vector'), fail_on_inconclusive=False)
